@@ -748,6 +748,16 @@ def direct_oracle(ctx, case, obs):
                 except Exception:
                     empty = False
                 who = "compressor-flush" if (empty and len(junk0) <= 40 and not handler_wrote) else "compressed-body-written"
+                if handler_wrote and who != "compressor-flush":
+                    # F24 with a compressing writer: the junk is (a prefix of) the compressed form of what the handler wrote
+                    try:
+                        dd = ref_dechunk(junk0)
+                        raw2 = dd[0] if dd is not None else junk0
+                        dec = zlib.decompressobj(16 + zlib.MAX_WBITS if raw2[:2] == b"\x1f\x8b" else zlib.MAX_WBITS).decompress(raw2)
+                        if blob(rs.get("n", 0), 15).startswith(dec):
+                            who = "handler-write"
+                    except Exception:
+                        pass
             j = m["rest"].find(b"HTTP/1.")
             junk = m["rest"] if j < 0 else m["rest"][:j]
             V(f"response-wire-desync/body-bytes-after-bodiless-head/{who}" if bodiless else f"response-wire-desync/surplus/{respclass(case, obs)}",
